@@ -3,6 +3,7 @@ package blocktransactions
 import (
 	"context"
 	"errors"
+	"fmt"
 	"time"
 
 	"github.com/NethermindEth/juno/blockchain/networks"
@@ -77,6 +78,17 @@ func migrateBlockRange(
 	firstBlock,
 	chainHeight uint64,
 ) pipeline.Result {
+	if firstBlock > chainHeight {
+		// The pass would emit nothing and report success, and Migrate would loop forever on
+		// entries that do not belong to the chain: refuse.
+		return pipeline.Result{
+			IsDone: false,
+			Err: fmt.Errorf(
+				"old transaction entries found at block %d above the chain height %d", firstBlock, chainHeight,
+			),
+		}
+	}
+
 	batchSemaphore := semaphore.New(
 		ingestorCount+1,
 		func() db.Batch {
